@@ -302,6 +302,19 @@ def undefined_attribute_scenarios(root):
     return fails
 
 
+def rerender_events(prog, events):
+    """stored histories (corpus, replays) carry the source text their edit events executed when they were recorded; the text
+    is rendered again from the abstract programs so that it always matches what `vprogs` renders for a fresh process"""
+    out, prev = [], prog
+    for ev in events:
+        ev = list(ev)
+        if ev[0] and ev[0][0] in ("edit", "switch-kind", "shadow-builtin") and ev[1]:
+            ev[1] = c01.event_actions(prev, ev[2])
+        out.append(tuple(ev))
+        prev = ev[2]
+    return out
+
+
 def fresh_versions(prog, root, cache):
     key = hashlib.sha1(json.dumps(vprogs.render_modules(prog, "vpk"), sort_keys=True).encode()).hexdigest()
     if key not in cache:
@@ -398,7 +411,7 @@ class CacheModel:
         d = prog["defs"][name]
         n = self.nid(name)
         if d["kind"] == "var":
-            if d["value"] != "UNSUPPORTED":
+            if not vprogs.unsupported(d["value"]):
                 self.send("sv %d %d" % (n, self.tok(["val", d["value"]])))
             return
         refs = []
@@ -498,7 +511,7 @@ def main(chk, replay=None):
     if replay is not None:
         root = tempfile.mkdtemp(prefix="c13r_")
         try:
-            evs = [tuple(e) for e in replay["events"]]
+            evs = rerender_events(replay["program"], [tuple(e) for e in replay["events"]])
             fails = scenario(replay["program"], evs, root)
             print(json.dumps(dict(still_fails=bool(fails), observed=fails[:2]), default=str))
             return 1 if fails else 0
@@ -542,7 +555,7 @@ def main(chk, replay=None):
 
     def work_corpus(item):
         root = tempfile.mkdtemp(prefix="c13c_", dir=chk.tmpdir())
-        evs = [tuple(e) for e in item["events"]]
+        evs = rerender_events(item["program"], [tuple(e) for e in item["events"]])
         try:
             if item.get("known"):
                 # the code is known to deviate from the model here: the property's oracle only
